@@ -58,6 +58,7 @@ NAMES = ["lame_mod", "shear_mod", "youngs_mod", "poisson_ratio", "bulk_mod", "lo
 PAIRS = [list(p) for p in itertools.combinations(NAMES, 2)]
 G_VALUES = [25.0e9, 3.0e9, 80.0e9]
 NU_VALUES = {"quick": [0.25, 0.1, 0.45, -0.3, 0.0], "thorough": [0.25, 0.1, 0.45, -0.3, 0.0, 0.49, -0.9]}
+NONPD_MATERIALS = [(25.0e9, 0.6), (25.0e9, 1.0), (25.0e9, -1.2), (-25.0e9, 0.25), (25.0e9, 0.75)]
 NONMAT = {"cavity_radius": [0.1, 1.0], "ref_density": [3000.0, 7800.0], "pressure_scale": [1.0e6, 1.0e5]}
 K_NONMAT = {"quick": 1, "thorough": 3}
 TIME_FACTORS = {"quick": [0.0, 0.4, 1.0, 2.5], "thorough": [0.0, 0.1, 0.4, 1.0, 2.5, 40.0]}
@@ -92,6 +93,12 @@ def tasks(tier, seed):
         for pair in pairs:
             for dev in devs:
                 out.append({"G": G, "nu": nu, "pair": pair, "dev": dev, "tier": tier})
+    # materials that are NOT positive definite, through each of the 15 pairs: 'the six describe one positive-definite material,
+    # or construction fails with ValueError' -- accepted constructions are judged by the same parameter oracle (clause
+    # params:positive-definite); added after the seeded change S2-C15-1 (a range check that can never fire)
+    for G, nu in NONPD_MATERIALS:
+        for pair in PAIRS:
+            out.append({"G": G, "nu": nu, "pair": pair, "dev": {}, "tier": tier, "nonpd": True})
     return out
 
 
